@@ -308,3 +308,41 @@ class PruneHintsKeepsVariation(_K):
         return And(ok, *cs)
 
     ensures = [prop("hinting-devices-removed-variation-devices-kept-in-place", lambda a, old, r: PruneHintsKeepsVariation._post(a, old))]
+
+
+# -- subsetter options: one run must not change the defaults of the next -------------------------------
+
+@contract
+class OptionsDefaultsAreNotShared(Contract):
+    """subset.Options: after a run that edits a list-valued option in place ('+=' / '-=' on the
+    command line, or options.x += [...] from Python) a fresh Options() has the documented
+    defaults again, and they are the same for every instance - for each list-valued option."""
+    module = "fontTools.subset"
+    qualname = "Options.__init__"
+    props = ("C16", "C07")
+    shadow_mode = "real"
+    variants = ("drop_tables", "no_subset_tables", "hinting_tables", "layout_features", "layout_scripts", "name_IDs", "name_languages")
+    level = "PF"
+
+    def args(self, S, variant):
+        from fontTools import subset
+        return dict(_opt=variant, _before=None)
+
+    def call(self, f, a):
+        from fontTools import subset
+        cls = subset.Options
+        fresh0 = cls()
+        default0 = list(getattr(fresh0, a._opt))
+        flag = "--" + a._opt.replace("_", "-")
+        edited = cls()
+        extra = "1234" if a._opt == "name_IDs" else "0x123" if a._opt == "name_languages" else "ZZZZ"
+        edited.parse_opts([flag + "+=" + extra])
+        edited.parse_opts([flag + "-=" + str(default0[0])]) if default0 and default0[0] != "*" else None
+        py = cls()
+        v = getattr(py, a._opt)
+        v += [extra] if isinstance(v, list) else []
+        fresh1 = cls()
+        return default0, list(getattr(fresh1, a._opt)), getattr(fresh1, a._opt) is getattr(cls(), a._opt)
+
+    ensures = [prop("fresh-options-have-the-defaults-again", lambda a, old, r: r[0] == r[1]),
+               prop("instances-do-not-share-their-lists", lambda a, old, r: not r[2])]
